@@ -166,7 +166,7 @@ def _decide(obl: Obligation, budget: float, confirm: bool, tmpdir: str):
         stages = [("z3-5.1", min(3.0, budget))]
         confirm = False
     else:
-        stages = [("z3-5.1", min(3.0, budget)), ("cvc5-1.0.3", budget), ("z3-4.8.12", budget), ("z3-5.1", budget)]
+        stages = [("z3-5.1", min(5.0, budget)), ("cvc5-1.0.3", budget), ("z3-4.8.12", budget), ("z3-5.1", budget)]
     decided = None
     for solver, t in stages:
         verdict, dt, out = _run(solver, path, t)
